@@ -163,7 +163,7 @@ fn vary_hash(mut c: Case) -> Case {
         2 if c.old.len() + c.new.len() <= 80 => obs::CONST_HASH,
         2 => obs::WEAK_HASH,
         3 => obs::STR_HASH,
-        _ => 0x5a17 + h,
+        _ => 0x5a17 + h % 0x7000_0000,
     };
     c
 }
